@@ -521,6 +521,10 @@ func init() {
 	register(&Prop{ID: "C04",
 		Gen: func(r *RNG, tier string, run int) *Trace {
 			g := dgen{nOps: 60, sizes: "fit", readBias: 6, resetW: 1, firstFault: -1}
+			// every third run: plain writes and trailing literals of any size
+			// (a Decoder splits them; a DecoderBuffer refuses what cannot fit,
+			// which leaves the stream unchanged); sequences still fit
+			g.bigLits = run%3 == 1
 			if run%4 == 3 {
 				// stratum with a partially accepting / failing writer: "each byte
 				// once and in order" must also hold when WriteTo/Flush is retried
